@@ -143,12 +143,36 @@ def run(chk):
     chk.rule(R5, "every CodeHolder function that accumulates section offsets (a loop whose body reads section->alignment() or "
                  "section->real_size()) iterates `_sections_by_order`, the order flatten() assigns offsets in - never the creation-order vector")
     fall = chk.facts(UNIT, funcs=r"asmjit::CodeHolder::[A-Za-z_0-9]+$")
+    # unit-local helpers that align an offset parameter to a section's alignment: name -> index of the offset parameter
+    fhelp = chk.facts(UNIT, funcs=r"asmjit::[A-Za-z_0-9]+$")
+    align_helpers = {}
+    for hg in cfg.load_functions(fhelp):
+        for ci, cx in hg.calls(lambda x: x.get("cn") == "align_up" and len(x.get("args", [])) == 2):
+            a0 = hg.e(hg.strip(cx["args"][0]))
+            reads_al = any((hg.e(j) or {}).get("k") == "mcall" and (hg.e(j) or {}).get("cn") == "alignment" for j in hg.walk(cx["args"][1]))
+            if a0 is not None and a0["k"] == "ref" and a0.get("dk") == "parm" and reads_al:
+                for pi, pp in enumerate(hg.params):
+                    if pp["did"] == a0["did"]:
+                        align_helpers[hg.name] = pi
+
+    def aligned_offsets(fn, body):
+        """expressions that are aligned to the section's alignment inside the loop body (directly or through a helper)"""
+        out = []
+        for j in body:
+            y = fn.e(j)
+            if y["k"] in ("call", "mcall") and y.get("cn") == "align_up" and y.get("args"):
+                out.append(y["args"][0])
+            elif y["k"] == "call" and y.get("callee") in align_helpers and len(y.get("args", [])) > align_helpers[y["callee"]]:
+                out.append(y["args"][align_helpers[y["callee"]]])
+        return out
     nl = 0
     for fn in cfg.load_functions(fall):
         for i, x in fn.ex.items():
             if x["k"] != "s:CXXForRangeStmt":
                 continue
             body_calls = {fn.e(j).get("cn") for j in fn.walk(i) if fn.e(j)["k"] == "mcall"}
+            if any(fn.e(j)["k"] == "call" and fn.e(j).get("callee") in align_helpers for j in fn.walk(i)):
+                body_calls.add("alignment")
             if not ({"real_size", "alignment"} <= body_calls):
                 continue
             # the range expression: the member named in the statement's header line
@@ -172,16 +196,16 @@ def run(chk):
                 continue
             body = set(fn.walk(i))
             calls_in = {fn.e(j).get("cn") for j in body if fn.e(j)["k"] == "mcall"}
+            if any(fn.e(j)["k"] == "call" and fn.e(j).get("callee") in align_helpers for j in body):
+                calls_in.add("alignment")
             if not ({"real_size", "alignment"} <= calls_in):
                 continue
-            # the running offset: first argument of align_up inside the loop
+            # the running offset: what is aligned to the section's alignment inside the loop
             off = set()
-            for j in body:
-                y = fn.e(j)
-                if y["k"] in ("call", "mcall") and y.get("cn") == "align_up" and y.get("args"):
-                    r0 = fn.e(fn.strip(y["args"][0]))
-                    if r0 and r0["k"] == "ref" and "did" in r0:
-                        off.add(r0["did"])
+            for e_ in aligned_offsets(fn, body):
+                r0 = fn.e(fn.strip(e_))
+                if r0 and r0["k"] == "ref" and "did" in r0:
+                    off.add(r0["did"])
             rs_locals = set()
             for j in body:
                 y = fn.e(j)
